@@ -1620,7 +1620,11 @@ GRIupdatemeta(int32 hdf_file_id, ri_info_t *img_ptr)
     ntstring[0] = DFNT_VERSION;                                /* version */
     ntstring[1] = (uint8)img_ptr->img_dim.nt;                  /* type */
     ntstring[2] = (uint8)(DFKNTsize(img_ptr->img_dim.nt) * 8); /* width: RIG data is 8-bit chars */
-    ntstring[3] = DFNTC_BYTE;                                  /* class: data are numeric values */
+    /* class: numeric values; a native or little-endian number type is recorded by its machine subclass, */
+    /* which is what GRIget_image_list decodes (same convention as DFSDsetNT) */
+    ntstring[3] = (uint8)(DFKisnativeNT(img_ptr->img_dim.nt)
+                              ? DFKgetPNSC(img_ptr->img_dim.nt, DF_MT)
+                              : (DFKislitendNT(img_ptr->img_dim.nt) ? DFNTF_PC : DFNTC_BYTE));
     if (Hputelement(hdf_file_id, img_ptr->img_dim.nt_tag, img_ptr->img_dim.nt_ref, ntstring, (int32)4) ==
         FAIL)
         HGOTO_ERROR(DFE_PUTELEM, FAIL);
